@@ -189,7 +189,14 @@ theorem adjust_comm (k k' : κ) (f g : ν → ν) (h : ∀ v, f (g v) = g (f v))
   | nil => rfl
   | cons e r ih =>
     obtain ⟨k0, v0⟩ := e
-    by_cases h0 : k0 = k <;> by_cases h1 : k0 = k' <;> simp [adjust, h0, h1, ih, h]
+    by_cases h0 : k0 = k
+    · subst h0
+      by_cases h1 : k0 = k'
+      · subst h1; simp [adjust, h]
+      · simp [adjust, h1]
+    · by_cases h1 : k0 = k'
+      · subst h1; simp [adjust, h0]
+      · simp [adjust, h0, h1, ih]
 
 theorem sumBy_adjust (h : κ → ν → Int) (k : κ) (f : ν → ν) (m : Map κ ν) (v : ν)
     (hg : get? m k = some v) : sumBy h (adjust k f m) = sumBy h m + (h k (f v) - h k v) := by
